@@ -171,11 +171,10 @@ func judge(c Case, plan string, r *run, base *run) *pt.Failure {
 	if changed && normalUndo == 0 {
 		return pt.Failf(sig("writes-without-undo-log"), "business rows were committed but no undo_log row exists for %s:%s\n%s", r.xid, atenv.DiffSnap(r.d0, r.final), info())
 	}
-	if !changed && normalUndo != 0 {
-		baseChanged := base != nil && atenv.DiffSnap(base.d0, base.final) != ""
-		if baseChanged || base == nil {
-			return pt.Failf(sig("undo-log-without-writes"), "an undo_log row was committed but the business rows were not\n%s", info())
-		}
+	if !changed && normalUndo != 0 && base != nil && atenv.DiffSnap(base.d0, base.final) != "" {
+		// (an UPDATE that matches rows without changing them legitimately records an undo log: only a run
+		// whose fault-free twin changes rows is judged here)
+		return pt.Failf(sig("undo-log-without-writes"), "an undo_log row was committed but the business rows were not\n%s", info())
 	}
 	// (b) order on the journal
 	var regReply, undoIns, commit, firstWrite int64 = -1, -1, -1, -1
